@@ -331,6 +331,91 @@ def sequence_stream(chk, P, fresh, n_groups):
             pass
     return None, stats
 
+BOUNDARY_CHARSETS = ['UTF-8', 'UTF-8', 'ISO-8859-2', 'KOI8-R', 'CP1251', 'EUC-JP', 'SHIFT_JIS', 'GBK', 'ISO-8859-15', 'KOI8-RU']
+HEADER_PREFIXES = ['tcomment', 'blank', 'ignored', 'obsolete', 'longline']
+CHEAP_FOR_DRIVER = ('entries', 'longline', 'blank', 'ignored', 'obsolete')
+
+def boundary_stream(chk, P):
+    """size / offset boundary families: a late feature (the header's Content-Type line, an obsolete entry, a flag line, a
+    charset-dependent escape) starting exactly at byte offset 2^k-1, 2^k, 2^k+1 (k = 10..20) behind comment blocks, blank lines, obsolete
+    entries, one very long line, many entries or one very long string.  The model has no size limit anywhere (`detect_header_general`
+    quantifies over any `pre`); a loader short-cut that looks only at the first N bytes or lines shows up here with a concrete file, and
+    the failing size is minimised by bisection (the constructor is a function of the offset)."""
+    rng = chk.rng
+    T = chk.thorough
+    usable = [c for c in BOUNDARY_CHARSETS if G.repertoire(c)]
+    small = [x for x in G.BOUNDARY_SIZES if x <= (1 << 14) + 1]
+    big = [x for x in G.BOUNDARY_SIZES if x > (1 << 14) + 1]
+    sizes = G.BOUNDARY_SIZES if T else small + rng.sample(big, 3)
+    cases = []
+    for S in sizes:
+        for Sh in ((S, S - 20) if (T or S <= (1 << 14) + 1) else (S,)):           # the declaration starting at S, and straddling it
+            for _ in range(20):
+                c = (rng.choice(usable), rng.choice(HEADER_PREFIXES), 'header', Sh, rng.randrange(1000))
+                if G.boundary_file(*c) is not None:
+                    cases.append(c); break
+        cases += G.boundary_cases(rng, [S], usable, per_size=2 if T else 1)
+    stats = {'files': 0, 'largest': 0, 'by_feature': {}, 'by_prefix': {}, 'sizes': len(sizes), 'bytes': 0, 'in_correspondence': 0}
+    lines, impls = [], []
+    cex = None
+    for cs, prefix, feature, S, variant in cases:
+        cat, text, info = G.boundary_file(cs, prefix, feature, S, variant)
+        data = text.encode(cs)
+        stats['files'] += 1
+        stats['bytes'] += len(data)
+        stats['largest'] = max(stats['largest'], len(data))
+        stats['by_feature'][feature] = stats['by_feature'].get(feature, 0) + 1
+        stats['by_prefix'][prefix] = stats['by_prefix'].get(prefix, 0) + 1
+        r = check_roundtrip(P, data, cat, cs, text)
+        if r is None:
+            if len(data) <= (1 << 14) + 400 or (len(data) <= (1 << 16) + 400 and prefix in CHEAP_FOR_DRIVER):
+                line, skip = P.load_line(data, table_ok=True)
+                if not skip:
+                    lines.append(line); impls.append(P.impl_load(data)); stats['in_correspondence'] += 1
+            continue
+        # minimise the offset: the smallest S for which this family still fails
+        def fails(S2):
+            b = G.boundary_file(cs, prefix, feature, S2, variant)
+            if b is None:
+                return None
+            c2, t2, _i = b
+            rr = check_roundtrip(P, t2.encode(cs), c2, cs, t2)
+            if rr is not None:
+                rr['_cat'] = c2
+            return rr
+        r['_cat'] = cat
+        lo = None
+        for S0 in (200, 300, 400, 600, 800, 1000):
+            if S0 < S and fails(S0) is None and G.boundary_file(cs, prefix, feature, S0, variant) is not None:
+                lo = S0; break
+        best, bestS = r, S
+        if lo is not None:
+            hi = S
+            while hi - lo > 1:
+                mid = (lo + hi) // 2
+                rr = fails(mid)
+                if rr is None:
+                    if G.boundary_file(cs, prefix, feature, mid, variant) is None:
+                        lo = mid            # no file of that size in this family: treat as passing
+                    else:
+                        lo = mid
+                else:
+                    hi, best, bestS = mid, rr, mid
+        cex = dict(best, boundary_family={'prefix': prefix, 'late_feature': feature, 'charset': cs, 'variant': variant,
+                                          'first_failing_offset_found': S, 'minimal_failing_offset': bestS,
+                                          'largest_passing_offset_below': lo,
+                                          'meaning': f'the late feature ({feature}) starts at byte offset {bestS} of the file, behind {prefix} filler; '
+                                                     f'the same file with the feature at offset {lo} loads to its catalog'})
+        if len(cex.get('file_hex', '')) > 400000:
+            cex.pop('file_text', None)
+        break
+    if lines and os.path.exists(common.driver_path()):
+        try:
+            chk.stream('po-load-boundary', lines, impls)
+        except common.Infra:
+            pass
+    return cex, stats
+
 def classify_history(chk, P, fresh, cex, last, bad, seq_cex, hist_index=None):
     """an operation that went wrong inside this long-running process (`last`, judged by `bad(result)`): does it go wrong in a fresh
     process too?  If not, the failure depends on what the process did before: shrink that history."""
@@ -358,12 +443,27 @@ def classify_history(chk, P, fresh, cex, last, bad, seq_cex, hist_index=None):
             'replay': 'echo the JSON list `sequence` | tools/checks/po_fresh.py run   (all ops in ONE new process, in this order; the last result is wrong; '
                       'load ops: write bytes.fromhex(hex) to a file and polib.pofile(path) after Checker.patch_environment())'}
 
+TIE_EXPLANATION = (
+    ' TIE BY TRANSLATION (Props/C10Tie.lean): lib/polib4us.py is regenerated from the current source on every run (tools/translate/polib4us2lean.py -> '
+    'Generated/Polib4us.lean over the kit Model/PoPy.lean) — _wrap_octal_escape, polib_unescape with its inner unescape(match), the POEntry.flags setter, the patched '
+    'translated(), Codecs._is_ignored_comment and the generator Codecs.open — and proved equal, for all strings / files / charsets / environments, to unescape, setFlags, '
+    'translated, isIgnoredComment and decodeFile + preprocess of Model/Po.lean: generated_wrap_octal_escape_eq_model, generated_unescape_inner_eq_model, '
+    'generated_polib_unescape_eq_model, generated_set_flags_eq_model, generated_translated_eq_model, generated_is_ignored_comment_eq_model, '
+    'generated_codecs_open_eq_model; restated about the regenerated functions: unescape_spelling_generated, unescape_witnesses_generated, translated_iff_generated, '
+    'codecs_open_keeps_body_generated, codecs_open_decode_error_generated (coverage.tie; twin streams po-unescape-generated, po-preprocess-generated, '
+    'po-setflags-generated). polib\'s own _POFileParser and detect_encoding stay hand-modelled.')
+
 def main():
     chk = common.Check('C10')
     import po_common as P
-    proved = chk.prove('I18n.Props.C10', generated=('polib',))
-    problems = ' '.join(chk.lean.problems)
-    driver_ok = os.path.exists(common.driver_path()) and not any('untranslatable' in s for s in chk.lean.translation.values()) \
+    proved = chk.prove('I18n.Props.C10', generated=('polib', 'polib4us'), extra_targets=())
+    # the tie by translation: lib/polib4us.py regenerated from the current source and proved equal to the model's loader front end (Props/C10Tie.lean)
+    tie_ok = common.prove_tie(chk, 'I18n.Props.C10Tie', ('polib4us',),
+                              'polib_unescape / the flags setter / translated / Codecs._is_ignored_comment / Codecs.open regenerated from the current lib/polib4us.py '
+                              'are no longer proved equal to unescape / setFlags / translated / isIgnoredComment / decodeFile + preprocess of Model/Po.lean '
+                              '(generated_*_eq_model and the theorems restated about them)')
+    problems = ' '.join(p for p in chk.lean.problems if not p.startswith('I18n.Props.C10Tie'))
+    driver_ok = os.path.exists(common.driver_path()) and not any('untranslatable' in s for k, s in chk.lean.translation.items() if k != 'polib4us') \
         and 'Driver' not in problems and 'I18n.Model' not in problems and 'I18n.Generated' not in problems
     rng = chk.rng
     T = chk.thorough
@@ -395,8 +495,13 @@ def main():
             r, _stderr, _exc = P.impl_unescape(enc, s)
             lines.append(line); impls.append(r)
         dis, _ = chk.stream('po-unescape', lines, impls)
+        if tie_ok:      # the twins: the same inputs through the functions REGENERATED from lib/polib4us.py (Generated.Polib4us)
+            chk.stream('po-unescape-generated', [l.replace('po unescape ', 'po gunescape ', 1) for l in lines], impls)
         pi = preprocess_inputs(rng, n_unit // 2)
-        chk.stream('po-preprocess', [f'po preprocess {P.hexchars(t)}' for t in pi], [P.impl_preprocess(t) for t in pi])
+        pre_impls = [P.impl_preprocess(t) for t in pi]
+        chk.stream('po-preprocess', [f'po preprocess {P.hexchars(t)}' for t in pi], pre_impls)
+        if tie_ok:
+            chk.stream('po-preprocess-generated', [f'po gpreprocess {P.hexchars(t)}' for t in pi], pre_impls)
         di = detect_inputs(rng, n_unit // 2)
         lines, impls = [], []
         for d in di:
@@ -406,6 +511,12 @@ def main():
             lines.append(f'po detect {o} {d.hex() or "-"}'); impls.append(P.impl_detect(d))
         chk.stream('po-detect', lines, impls)
         fi = flagline_inputs(rng, n_unit // 4)
+        fitems = [[l[3:]] for l in fi] + [[l[3:], ' x ,y\t'] for l in fi[:200]]
+        fitems = [it for it in fitems if all(x and '\n' not in x for x in it)]
+        set_impls = [P.impl_setflags(it) for it in fitems]
+        chk.stream('po-setflags', ['po setflags ' + ' '.join(P.hexchars(x) for x in it) for it in fitems], set_impls)
+        if tie_ok:
+            chk.stream('po-setflags-generated', ['po gsetflags ' + ' '.join(P.hexchars(x) for x in it) for it in fitems], set_impls)
         fdatas = [(l + '\nmsgid "a"\nmsgstr "b"\n').encode('UTF-8') for l in fi]
         fdatas = [b'msgid ""\nmsgstr "Content-Type: text/plain; charset=UTF-8\\n"\n\n' + d for d in fdatas]
         dis, _ = chk.stream('po-flags', [P.load_line(d)[0] for d in fdatas], [P.impl_load(d) for d in fdatas])
@@ -507,6 +618,17 @@ def main():
             cex = classify_history(chk, P, fresh, {'kind': 'catalog-differs-after-history', 'file_hex': d.hex(), 'observed': now[:400], 'expected': (alone or '')[:400]},
                                    {'op': 'load', 'hex': d.hex(), 'enc': None}, lambda r: r.get('canon') != alone, None, len(P._history) - 1)
             break
+    # ------------------------------------------------------------------ size / offset boundaries
+    if cex is None:
+        cex, bstats = boundary_stream(chk, P)
+        chk.evaluations += bstats['files']
+        chk.coverage['boundary_stream'] = dict(bstats, found=cex is not None)
+        if cex is not None:
+            bf, bcat = cex.get('boundary_family'), cex.get('_cat')
+            cex = classify_history(chk, P, fresh, cex, {'op': 'load', 'hex': cex['file_hex'], 'enc': None},
+                                   lambda r, bcat=bcat: judge_fresh(r, bcat) is not None, seq_cex, cex.get('_hist_index'))
+            if bf and 'boundary_family' not in cex:
+                cex['boundary_family'] = bf
     extra_wf = wf if not chk.broken else wf + wellformed(rng, n_wf * (mult - 1), charsets)
     if T and not chk.broken:
         extra_wf = wf + wellformed(rng, n_wf, charsets)
@@ -559,6 +681,9 @@ def main():
              'KOI8-RU, GEORGIAN-PS, VISCII, EUC-TW, KOI8-T, ASCII; plus UTF-16/UTF-7/CP037/UTF-32 declared on ASCII files) x spellings (per character: raw, simple escape, octal 1-3 digits, '
              'hex 1-2 digits either case, escaped bytes of the charset; cuts anywhere between characters, empty segments, blank lines, ignored comment forms, atypical comments, padding, '
              'final newline or not, trailing comments); malformed: one/two token-aware edits of such files, token soup, random bytes, encoding argument None/ISO-8859-1/UTF-8/ASCII; '
+             'size/offset boundary families: a late feature (header Content-Type line, obsolete entry, flag line, charset-dependent escape) at byte offsets 2^k-1, 2^k, 2^k+1 '
+             '(k=10..20; sampled in quick) behind comment blocks, blank/ignored lines, obsolete entries, one very long line, many entries, one very long string; '
+             'sequences of files in different charsets sharing escaped lines, every order, one process per order; '
              'non-trivial = distinct accepted outcome with at least one entry',
         trusted=['Lean 4.33 kernel', 'axioms: propext, Classical.choice, Quot.sound only',
                  'tools/translate/polib2lean.py (dumps the transition table of a live _POFileParser after install_patches(), the keyword tables, regex texts, interpreter character classes)',
@@ -568,8 +693,11 @@ def main():
                  'Python codecs are a parameter (Env): the driver implements ASCII, ISO-8859-1, UTF-8, single-byte charmaps read from Python, and multi-byte codecs as a table over the '
                  'generator\'s repertoire (well-formed stream only); files needing another family are skipped and counted',
                  'Spec.PoSpelling is my reading of the PO syntax (gettext manual, po-lex.c): no msgfmt/msgunfmt is installed to compare with',
+                 'tools/translate/polib4us2lean.py + tools/translate/pytr (the translated subset of lib/polib4us.py) and the kit Model/PoPy.lean: the five regexes '
+                 'pinned by pattern text and standing for the model\'s scanners on both sides; on a run of escapes the two fix-up substitutions act escape by escape and '
+                 'literal_eval yields each escape\'s byte; the stack-frame hack is the parameter file_encoding; a generator is the list it yields',
                  'the correspondence harness (tools/checks/po_common.py, Driver/Po.lean)'],
-        explanation=EXPLANATION)
+        explanation=EXPLANATION + TIE_EXPLANATION)
 
 EXPLANATION = (
     'Proved in Lean (Props/C10.lean; all strings, all spellings, every codec environment satisfying CodecOk = ASCII-transparent charset that decodes what it encodes): '
